@@ -229,6 +229,9 @@ func (v *inputFieldDefaultInjectionVisitor) jsonWalker(fieldType int, defaultVal
 				*finalValueReplaced = true
 			}
 		} else {
+			// nothing to inject for this element (null or a mismatching kind), but it still
+			// occupies a position: keep the index in step with the array
+			i++
 			return
 		}
 		i++
